@@ -231,6 +231,12 @@ def handle : Handler
     pure { out, spec := !accepted, specNote := "no_accept: connection accepted and served after Shutdown returned nil",
            cls := if accepted && impl.head? == some "nil" then "shutdown-before-listen" else "",
            tag := "c18race" }
+  | "c18sig" :: nsig :: _gap :: _sigs, impl => do
+    -- the server as a process of its own under Hertz.Spin(): whatever number of shutdown signals arrives while a request
+    -- is in progress, the request gets its complete response and the process ends by itself (exit status 0)
+    pure { out := ["full", "0"], spec := impl == ["full", "0"],
+           specNote := "request in progress completed and process exited cleanly although the shutdown signal was repeated",
+           tag := "c18sig:" ++ nsig }
   | ["c18conc", _n], impl => do
     -- two Shutdown calls released at the same instant, repeated: <one nil + one notrunning> <both nil> <other>.
     -- The model allows exactly one outcome per pair: one caller wins, the other reports errStatusNotRunning
